@@ -6908,19 +6908,20 @@ impl Machine {
         let seed = self.deref_register(1);
 
         match Number::try_from((seed, &self.machine_st.arena.f64_tbl)) {
+            // any integer is a valid seed: negative and > 64-bit values are reduced to their low 64 bits
             Ok(Number::Fixnum(n)) => {
-                let n: u64 = Integer::from(n).try_into().unwrap();
+                let n = n.get_num() as u64;
                 let rng: StdRng = SeedableRng::seed_from_u64(n);
                 self.rng = rng;
             }
             Ok(Number::Integer(n)) => {
-                let n: u64 = (&*n).try_into().unwrap();
+                let n: u64 = (&*n & Integer::from(u64::MAX)).try_into().unwrap();
                 let rng: StdRng = SeedableRng::seed_from_u64(n);
                 self.rng = rng;
             }
             Ok(Number::Rational(n)) => {
                 if n.denominator() == &UBig::ONE {
-                    let n: u64 = n.numerator().try_into().unwrap();
+                    let n: u64 = (n.numerator() & Integer::from(u64::MAX)).try_into().unwrap();
                     let rng: StdRng = SeedableRng::seed_from_u64(n);
                     self.rng = rng;
                 }
